@@ -45,7 +45,7 @@ def run(ctx):
     from okdmr.dmrlib.utils.bits_bytes import bytes_to_bits
     rng = random.Random(ctx.seed)
     bnd = boundaries()
-    dense = 1 << (15 if ctx.quick else 21)
+    dense = 1 << (15 if ctx.quick else 20)
     uvals = list(range(dense)) + bnd + [rng.getrandbits(32) for _ in range(20000 if ctx.quick else 200000)]
     U, S, F, GEO, TIME = [], [], [], [], []
     for v in uvals:
@@ -61,7 +61,7 @@ def run(ctx):
             r["err"] = type(ex).__name__
         U.append(r)
         ctx.count(f"u{v}")
-    svals = [v for v in list(range(1 << (12 if ctx.quick else 17))) + bnd + [rng.getrandbits(31) for _ in range(10000 if ctx.quick else 100000)]
+    svals = [v for v in list(range(1 << (12 if ctx.quick else 16))) + bnd + [rng.getrandbits(31) for _ in range(10000 if ctx.quick else 100000)]
              if v <= 2 ** 31 - 1]
     for v in svals:
         for neg in (False, True):
@@ -137,19 +137,28 @@ def run(ctx):
             r["err"] = type(ex).__name__
         TIME.append(r)
         ctx.count(f"t{t}")
-    data = {"boundaries": [pair(v) for v in bnd], "u": U, "s": S, "f": F, "geo": GEO, "time": TIME}
-    path = os.path.join(ctx.rundir, "c14_data.json")
-    json.dump(data, open(path, "w"))
     ctx.sample({"uintvar": U[300], "sintvar": S[131], "float": F[50], "time": TIME[2]})
-    res = core.run_tlc(ctx, "MC_MBXMLVar", "MC_MBXMLVar.cfg", env={"DATA_FILE": path}, timeout=2400, jvm=("-Xss256m",))
-    want = 65536 + len(bnd) + len(U) + len(S) + len(F) + len(GEO) + len(TIME)
-    if not res.ok or res.distinct < want:
-        raise core.MachineryError(f"TLC did not judge all items ({res.distinct} < {want})")
-    ctx.traces_validated = want - 65536 - len(bnd)
-    groups = {}
     src = {"u": U, "s": S, "f": F, "geo": GEO, "time": TIME}
-    for v in core.parse_printed_json(res, tag="REJECT"):
-        groups.setdefault((v["phase"], v["why"]), []).append(src[v["phase"]][v["idx"]])
+    total = sum(len(v) for v in src.values())
+    nchunks = max(1, (total + 299999) // 300000)         # TLC judges at most ~300 000 records per run (memory)
+    groups, drift = {}, {}
+    ctx.traces_validated = 0
+    for j in range(nchunks):
+        part = {k: v[j::nchunks] for k, v in src.items()}
+        data = {"boundaries": [pair(v) for v in bnd]}
+        data.update(part)
+        path = os.path.join(ctx.rundir, f"c14_data_{j}.json")
+        json.dump(data, open(path, "w"))
+        res = core.run_tlc(ctx, "MC_MBXMLVar", "MC_MBXMLVar.cfg", env={"DATA_FILE": path}, timeout=2400, jvm=("-Xss256m",))
+        os.unlink(path)
+        want = 65536 + len(bnd) + sum(len(v) for v in part.values())
+        if not res.ok or res.distinct < want:
+            raise core.MachineryError(f"TLC did not judge all items ({res.distinct} < {want})")
+        ctx.traces_validated += want - 65536 - len(bnd)
+        for v in core.parse_printed_json(res, tag="REJECT"):
+            groups.setdefault((v["phase"], v["why"]), []).append(part[v["phase"]][v["idx"]])
+        for v in core.parse_printed_json(res, tag="DRIFT"):
+            drift.setdefault((v["phase"], v["why"]), []).append(v["idx"])
     for (ph, why), items in sorted(groups.items()):
         sub = ""
         if ph == "u":
@@ -158,9 +167,6 @@ def run(ctx):
         if ph == "s":
             sub = "/leading-septet-bit-6" if all(len(x["w"]) and (x["w"][0] & 0x40 or not x["neg"]) for x in items) else "/other"
         ctx.violation(f"mbxml-var/{why}{sub}", f"{why}: {len(items)} values, first {json.dumps(items[0])}", {"count": len(items), "first": items[:3]})
-    drift = {}
-    for v in core.parse_printed_json(res, tag="DRIFT"):
-        drift.setdefault((v["phase"], v["why"]), []).append(v["idx"])
     for (ph, why), idxs in sorted(drift.items()):
         ctx.model_drift(f"{ph}: {why} ({len(idxs)} items)")
 
